@@ -883,7 +883,7 @@ def _sweeps(tier):
 
 
 def cases(rng, tier, n=None):
-    total = n if n is not None else (1500 if tier != 'thorough' else 20000)
+    total = n if n is not None else (1000 if tier != 'thorough' else 20000)
     out = _sweeps(tier) if n is None else []
     for i in range(total):
         r = rng.random()
